@@ -91,12 +91,38 @@ def build(tier, seed, prop, only=None):
     body.append("#[kani::proof]\n#[kani::unwind(2)]\nfn ct_canary() {\n    let b: [u8; 4] = kani::any();\n    let w = W::new(&b, 4);\n    assert!(!w.ok, \"CANARY:containers\");\n}\n")
     specs["verif_kani::containers::ct_canary"] = dict(canary=True)
     mods = {"spec_rt": vlib.read(os.path.join(vlib.VERIF, "contracts/kani/spec_rt.rs")), "containers": "\n".join(body)}
+    pspecs, pmods = primitives_batch()
+    specs.update(pspecs)
+    mods.update(pmods)
     batch = vlib.Batch("wow_world_messages", FEATURES, mods, specs, jobs=8, harness_timeout=900, pre_inject=pre_inject)
     meta = dict(messages_in_tree=len(items), loop_free=len(units), checked_this_run=len(sel), changed_vs_baseline=n_changed,
                 excluded_for_resources=excluded,
                 not_loop_free={k: len(v) for k, v in sorted(skipped.items(), key=lambda kv: -len(kv[1]))},
                 not_loop_free_examples={k: v[:3] for k, v in skipped.items()})
     return [batch], meta
+
+
+PRIM = "verif_kani::c03_primitives::"
+PRIM_SPECS = {
+    "prim_read_bool_u8": (["util::read_bool_u8"], "complete", None),
+    "prim_read_bool_u16": (["util::read_bool_u16"], "complete", None),
+    "prim_read_bool_u32": (["util::read_bool_u32"], "complete", None),
+    "prim_read_sized_c_string_total": (["util::read_sized_c_string_to_vec"], "bounded", "frame <= 4 bytes; announced size in 0..=6 or >= 0x7FFFF0"),
+    "prim_packed_guid_write_then_read": (["util::write_packed_guid", "util::read_packed_guid", "util::packed_guid_size"], "complete", None),
+    "prim_packed_guid_read_total_and_canonical_roundtrip": (["util::read_packed_guid", "util::write_packed_guid"], "complete", None),
+    "prim_u16_u32_split_join": (["util::u16s_to_u32", "util::u32_to_u16s"], "complete", None),
+    "prim_read_c_string_bounded": (["util::read_c_string_to_vec"], "bounded", "frame <= 6 bytes"),
+}
+
+
+def primitives_batch(scratch=None):
+    mods = {"spec_rt": vlib.read(os.path.join(vlib.VERIF, "contracts/kani/spec_rt.rs")),
+            "c03_primitives": vlib.read(os.path.join(vlib.VERIF, "contracts/kani/c03_primitives.rs"))}
+    specs = {}
+    for h, (fns, kind, bound) in PRIM_SPECS.items():
+        specs[PRIM + h] = dict(kind=kind, bound=bound, functions=["wow_world_messages::" + f for f in fns], default_prop="C03")
+    specs[PRIM + "prim_canary"] = dict(canary=True)
+    return specs, mods
 
 
 def run_check(prop, tier, seed, extra_batches=None, post=None):
